@@ -105,13 +105,23 @@ func edit(f func()) (ok bool) {
 	return true
 }
 
+// oneofWrappers: one (empty) wrapper per message type of Envelope.Msg.
+func oneofWrappers() []interface{} {
+	return []interface{}{&pb.Envelope_PingMsg{}, &pb.Envelope_PongMsg{}, &pb.Envelope_ShutdownMsg{}, &pb.Envelope_AuthResponseMsg{},
+		&pb.Envelope_LedgerChannelProposalMsg{}, &pb.Envelope_LedgerChannelProposalAccMsg{}, &pb.Envelope_SubChannelProposalMsg{},
+		&pb.Envelope_SubChannelProposalAccMsg{}, &pb.Envelope_VirtualChannelProposalMsg{}, &pb.Envelope_VirtualChannelProposalAccMsg{},
+		&pb.Envelope_ChannelProposalRejMsg{}, &pb.Envelope_ChannelUpdateMsg{}, &pb.Envelope_VirtualChannelFundingProposalMsg{},
+		&pb.Envelope_VirtualChannelSettlementProposalMsg{}, &pb.Envelope_ChannelUpdateAccMsg{}, &pb.Envelope_ChannelUpdateRejMsg{},
+		&pb.Envelope_ChannelSyncMsg{}}
+}
+
 func clone[T proto.Message](m T) T { return proto.Clone(m).(T) }
 
 // RunC13 appends the protobuf cases of C13 (malformed trees and bytes). See RunC14 for the parameters.
 func RunC13(seed int64, tier, out string, start int, res *hx.Result) int {
 	r := newRun("C13", tier, out, start, res, 24)
 	g := r.g
-	rounds, perEnv, perKind, byteMuts := 1, 3, 4, 3
+	rounds, perEnv, perKind, byteMuts := 1, 2, 4, 2
 	thorough := tier == "thorough"
 	if thorough {
 		rounds, perEnv, perKind, byteMuts = 6, 6, 10, 8
@@ -260,12 +270,7 @@ func RunC13(seed int64, tier, out string, start int, res *hx.Result) int {
 			}
 		}
 		// every message wrapper with a nil inner message, and the empty envelope / zero-length frame
-		for _, w := range []interface{}{&pb.Envelope_PingMsg{}, &pb.Envelope_PongMsg{}, &pb.Envelope_ShutdownMsg{}, &pb.Envelope_AuthResponseMsg{},
-			&pb.Envelope_LedgerChannelProposalMsg{}, &pb.Envelope_LedgerChannelProposalAccMsg{}, &pb.Envelope_SubChannelProposalMsg{},
-			&pb.Envelope_SubChannelProposalAccMsg{}, &pb.Envelope_VirtualChannelProposalMsg{}, &pb.Envelope_VirtualChannelProposalAccMsg{},
-			&pb.Envelope_ChannelProposalRejMsg{}, &pb.Envelope_ChannelUpdateMsg{}, &pb.Envelope_VirtualChannelFundingProposalMsg{},
-			&pb.Envelope_VirtualChannelSettlementProposalMsg{}, &pb.Envelope_ChannelUpdateAccMsg{}, &pb.Envelope_ChannelUpdateRejMsg{},
-			&pb.Envelope_ChannelSyncMsg{}} {
+		for _, w := range oneofWrappers() {
 			e := &pb.Envelope{}
 			reflect.ValueOf(e).Elem().FieldByName("Msg").Set(reflect.ValueOf(w))
 			r.msgDirect(e, "named/nil-inner-message")
@@ -301,6 +306,9 @@ func RunC13(seed int64, tier, out string, start int, res *hx.Result) int {
 			r.msgDirect(tr, "named/bigint-130-bytes")
 		}
 	}
+
+	// ---- the count of every repeated field varied on its own ----
+	r.countSweep()
 
 	// ---- random structural mutations of well-formed trees ----
 	for round := 0; round < rounds; round++ {
